@@ -2,7 +2,7 @@
 import z3
 
 from ahbicht.models.condition_node_type import ConditionNodeType
-from pyvc.contracts import Bool, Inst, PSpec, Raw, SeqOf, Str, contract, lemma, Int
+from pyvc.contracts import Bool, Const, Inst, PSpec, Raw, SeqOf, Str, contract, lemma, Int
 from pyvc.values import Sc, SV, mk_s
 from specs.ghost import key_is_numeric, key_is_package, key_number
 
@@ -90,11 +90,14 @@ def is_fc(k):
 class ExtractFromList:
     """list input (as used by ConditionNodeBuilder): every key lands in exactly the list of its number range, in input
     order; a package key (unresolved) aborts with NotImplementedError, an out-of-range key with ValueError"""
-    params = dict(tree_or_list=SeqOf(_key), sanitize=Bool())
+    params = dict(tree_or_list=SeqOf(_key), sanitize=Const(False))
     raises = {"ValueError": "raises_some_key_out_of_range", "NotImplementedError": "raises_some_package_key"}
 
-    def pre(tree_or_list, sanitize):
-        return not sanitize
+    def hook(ex, st, bound):
+        """modular view (tree or list input): a CategorizedKeyExtract, or ValueError / NotImplementedError"""
+        outs = [ex.raise_(st.fork(), "ValueError", None), ex.raise_(st.fork(), "NotImplementedError", None)]
+        outs.append((st, cke().make(ex, st, "extract")))
+        return outs
 
     def raises_some_key_out_of_range(tree_or_list, sanitize):
         return any(spec_key_type(k) is None
@@ -189,3 +192,17 @@ class AddExtracts:
                                                                          + other.requirement_constraint_keys) \
             and result.package_keys == once_ascending_plain(self.package_keys + other.package_keys) \
             and result.time_condition_keys == once_ascending_plain(self.time_condition_keys + other.time_condition_keys)
+
+
+@contract(CKE + "generate_possible_content_evaluation_results", prop=["C18", "C06"])
+class GeneratePossible:
+    """modular view only: some list of content evaluation results (that it is exactly the Cartesian product is decided
+    by the bounded part of C18 - itertools and generator expressions are outside the executor)"""
+    params = dict(self=cke())
+    raises = {}
+
+    def hook(ex, st, bound):
+        from pyvc.values import Opaque, SV, mk_i
+        seq = SeqOf(lambda ex_, s_, name, i: Opaque("inst:ContentEvaluationResult")).make(ex, st, "generated")
+        st.ghost["generated_count"] = SV(mk_i(st.heap[seq.oid].lt.segs[0].n), "int")
+        return [(st, seq)]
